@@ -200,7 +200,7 @@ def render_body(k, part, rot):
     """returns list of source statements (each a list of lines without prompt)"""
     b = part['body']
     want = part['want']
-    o1, o2 = "'o%d_1'" % k, "'o%d_2'" % k
+    o1, o2 = repr(tok_text(('o', k, 1), None)), repr(tok_text(('o', k, 2), None))
     single = bool(part['dirs']) and part['inline']     # a trailing directive belongs to ONE statement
     if b == 'comment':
         return [['# comment %d' % k]] if not part['dirs'] or part['inline'] else []
@@ -296,10 +296,26 @@ def render_body(k, part, rot):
     raise KeyError(b)
 
 
+_TOK = {'long': False}       # long mode (set per case by checks that ask for it): printed texts of four lines that contain braces
+
+
+def _long(text, k, j):
+    return "%s\n{'part': %d,\n 'line': %d}\nend of %s" % (text, k, j, text) if _TOK['long'] else text
+
+
+def _flat(texts):
+    out = []
+    for t in texts:
+        out.extend(t.split('\n'))
+    return out
+
+
 def tok_text(tok, prog):
     cls, k, j = tok
     if cls == 'o':
-        return 'o%d_%d' % (k, j)
+        return _long('o%d_%d' % (k, j), k, j)
+    if cls == 'x' and _TOK['long']:
+        return _long('X%d' % k, k, j)
     if cls == 'r':
         body = prog[k - 1]['body']
         return 'None' if body in ('evaln', 'evalnp') else 'R%d' % k
@@ -351,8 +367,8 @@ def render_want(k, part, want_tokens, prog, rot):
         # a traceback header without a final 'Type: message' line is not a traceback block either
         return [['Traceback (most recent call last):', '...'], ['Traceback (most recent call last):', '    ...'], ['Traceback (most recent call last):']][rot % 3]
     if w == 'nontb' and rot % 3:
-        return [tok_text(t, prog) for t in want_tokens] + ['second line of text %d' % k] * (rot % 3)
-    return [tok_text(t, prog) for t in want_tokens]
+        return _flat([tok_text(t, prog) for t in want_tokens]) + ['second line of text %d' % k] * (rot % 3)
+    return _flat([tok_text(t, prog) for t in want_tokens])
 
 
 def need_sep(prev, cur):
@@ -744,6 +760,7 @@ def _replay_state(st, txt):
     exp = expected_from_state(st)
     wants = [[tuple(t) for t in w] for w in st['wtext']]
     rot = (zlib.crc32(txt.encode()) + _JOB['seed']) % 100003
+    _TOK['long'] = bool(_JOB.get('long_tokens')) and rot % 5 == 2
     with Env():
         verbose = _JOB.get('verbose', 0)
         if verbose == 'rotate':
